@@ -136,38 +136,43 @@ def _norm_of(call: ast.Call) -> str:
     return unparse(n) if n is not None else "None"
 
 
-def _rule_shift_pairing(check, repo: Repo) -> None:
-    """R9: fftshift and ifftshift are inverse to each other; fftshift∘fftshift is the identity only on even-length axes.  A value that was brought to the centred
-    frame by `fftshift` must be brought back by `ifftshift` (and vice versa): a data-flow chain that applies the SAME shift function twice leaves every odd-length
-    axis rolled by one sample."""
+def _frame_events(repo: Repo):
+    """Centring typestate of fourier_projection (flow-sensitive, per branch), with estimate_amplitudes summarised for exactly the option values its callers pass."""
+    from ..domains.frames import CENTRED, CORNER, Frames
     tm, fp = repo.func(f"{PT}:Ptychography.fourier_projection")
-    shifts = [c for c in calls_in(fp) if (call_name(c) or "").split(".")[-1] in ("fftshift", "ifftshift") and c.args]
+    _, est = repo.func(f"{PB}:PtychographyBase.estimate_amplitudes")
+    from ..core.repo import param_default
+    summaries = {}
 
-    def upstream(e_, seen):
-        """shift calls in the definition closure of e_ (not crossing another shift of the opposite kind — that one undoes it)"""
-        out = []
-        for x in ast.walk(e_):
-            if isinstance(x, ast.Call) and (call_name(x) or "").split(".")[-1] in ("fftshift", "ifftshift") and x.args:
-                out.append(x)
-            elif isinstance(x, ast.Name) and x.id not in seen:
-                seen.add(x.id)
-                for d in definitions(fp, x.id):
-                    if isinstance(d, ast.AST):
-                        out.extend(upstream(d, seen))
-        return out
+    def call_frame(c: ast.Call):
+        if not (call_name(c) or "").endswith("estimate_amplitudes"):
+            return None
+        opt = kwarg(c, "corner_centered") or (c.args[1] if len(c.args) > 1 else None) or param_default(est, "corner_centered")
+        if not isinstance(opt, ast.Constant):
+            return None
+        key = bool(opt.value)
+        if key not in summaries:
+            fr = Frames(est, {}, consts={"corner_centered": key}).run()
+            summaries[key] = (fr.returns, fr.events)
+        rets = summaries[key][0]
+        return rets[0] if len(rets) == 1 else None
+    params = [a.arg for a in fp.args.args]
+    fr = Frames(fp, {params[1]: CENTRED}, call_frame=call_frame).run()
+    return tm, fp, est, fr, summaries
+
+
+def _rule_shift_pairing(check, repo: Repo) -> None:
+    """R9: fftshift and ifftshift are inverse to each other; fftshift∘fftshift is the identity only on even-length axes.  Decided by the centring typestate
+    (qv/domains/frames.py): every shift is applied to a value in the frame it expects, on every branch separately."""
+    tm, fp, est, fr, summaries = _frame_events(repo)
     n = 0
-    for c in shifts:
-        kind = (call_name(c) or "").split(".")[-1]
-        ups_ = [u for u in upstream(c.args[0], set()) if u is not c]      # `x = ifftshift(x)`: the flow-insensitive closure of x contains this very call
-        same = [u for u in ups_ if (call_name(u) or "").split(".")[-1] == kind]
-        opp = [u for u in ups_ if (call_name(u) or "").split(".")[-1] != kind]
-        if not ups_:
+    for node, kind, ok, detail in fr.events:
+        if kind != "shift":
             continue
         n += 1
-        check.decide(not (same and not opp), "C16-R9", f"fourier_projection: `{unparse(c)[:50]}` undoes an earlier shift with the INVERSE function", "", tm.line(c), definite=True,
-                     fail_detail=f"`{unparse(c)[:60]}` is applied to a value that already went through `{unparse(same[0])[:50]}`: {kind}∘{kind} is the identity only on even-length "
-                                 f"axes — for an odd detector dimension the spectrum stays rolled by one pixel, the projected wave does not carry the measured amplitudes and the "
-                                 f"projection is not idempotent" if same else "")
+        check.decide(ok, "C16-R9", f"fourier_projection: `{unparse(node)[:50]}` is applied to a value in the frame it expects", detail, tm.line(node), definite=True,
+                     fail_detail=f"{detail}: s∘s is the identity only on even-length axes — for an odd detector dimension the spectrum stays rolled by one pixel, the projected wave "
+                                 f"does not carry the measured amplitudes and the projection is not idempotent")
     check.extra["shift_chains"] = n
 
 
@@ -550,48 +555,28 @@ def _projection(check, repo, mod, fp) -> None:
     meas = params[1]
     check.assume("the measured amplitudes handed to fourier_projection are detector-centred (they are the loss targets, which "
                  "DetectorPixelated.forward's fftshift-ed predictions are compared with)")
-    # typestate of the measured amplitudes along their definitions
-    state = "Centred"
-    trail = []
-    for st in fp.body:
-        if isinstance(st, ast.Assign) and dotted(st.targets[0]) == meas:
-            v = st.value
-            cn = (call_name(v) or "").split(".")[-1] if isinstance(v, ast.Call) else None
-            if cn == "ifftshift":
-                trail.append("ifftshift")
-                state = "Corner" if state == "Centred" else "BROKEN(ifftshift of Corner)"
-            elif cn == "fftshift":
-                trail.append("fftshift")
-                state = "Centred" if state == "Corner" else "BROKEN(fftshift of Centred)"
-            else:
-                raise AnalysisError(f"fourier_projection: `{unparse(st)[:60]}` rebinding of the measured amplitudes not understood")
-            dims = kwarg(v, "dim") or (v.args[1] if len(v.args) > 1 else None)
-            if dims is None or unparse(dims) not in ("(-2, -1)", "(-1, -2)"):
-                check.violated("C16-R4", "fourier_projection: the corner-centring shift acts on the two detector axes",
-                               f"`{unparse(v)}` shifts dims {unparse(dims) if dims is not None else 'ALL'}", mod.line(st))
-    check.decide(state == "Corner", "C16-R4", "fourier_projection: detector-centred measured amplitudes are brought to FFT (corner) order by the inverse shift",
-                 f"{' → '.join(trail) or 'no shift'} ⇒ {state}", mod.line(fp),
-                 fail_detail=f"shift sequence {trail or 'none'} leaves the measured amplitudes {state}: fftshift undoes fftshift only for even "
-                             f"extents, so for odd ROI sizes amplitudes are paired with the wrong Fourier pixels (projection not idempotent, "
-                             f"|result| ≠ measured)")
-    # the overlap spectrum is in corner order: plain fft2, no shift
-    fo = [d for d in definitions(fp, "fourier_overlap") if isinstance(d, ast.AST)]
-    ok = len(fo) == 1 and isinstance(fo[0], ast.Call) and (call_name(fo[0]) or "").endswith("fft2") and "shift" not in unparse(fo[0])
-    check.decide(ok, "C16-R4", "fourier_projection: the overlap spectrum stays in FFT order", "", mod.line(fp), fail_detail="fourier_overlap is shifted")
-    ea_call = [c for c in calls_in(fp) if (call_name(c) or "").endswith("estimate_amplitudes")]
-    ok = len(ea_call) == 1 and is_const(kwarg(ea_call[0], "corner_centered"), True)
-    check.decide(ok, "C16-R4", "fourier_projection[mixed state]: the estimated far-field amplitudes are requested in corner order", "", mod.line(fp),
-                 fail_detail="estimate_amplitudes is not called with corner_centered=True")
-    _, est = repo.func(f"{PB}:PtychographyBase.estimate_amplitudes")
-    ok = False
-    for n in ast.walk(est):
-        if isinstance(n, ast.If) and unparse(n.test) in ("not corner_centered", "corner_centered"):
-            shifted, plain = (n.body, n.orelse) if unparse(n.test) == "not corner_centered" else (n.orelse, n.body)
-            rs = [unparse(x.value) for x in shifted if isinstance(x, ast.Return)]
-            rp = [unparse(x.value) for x in plain if isinstance(x, ast.Return)]
-            ok = rs == ["torch.fft.fftshift(amps, dim=(-2, -1))"] and rp == ["amps"]
-    check.decide(ok, "C16-R4", "estimate_amplitudes: corner_centered=True returns the unshifted amplitudes, otherwise fftshift", "", repo.module(PB).line(est),
-                 fail_detail="estimate_amplitudes does not shift exactly when corner_centered is false")
+    # centring typestate (qv/domains/frames.py): measured data are Centred, spectra are Corner; every element-wise pairing joins two values of the SAME frame,
+    # every inverse transform receives a Corner spectrum — per branch.  estimate_amplitudes is summarised for the option values its callers actually pass.
+    _tm, _fp, est, fr, summaries = _frame_events(repo)
+    n_pair = 0
+    for node, kind, ok, detail in fr.events:
+        if kind == "shift":
+            continue  # reported under R9
+        n_pair += 1
+        what = "pairs two values of the same centring" if kind == "pair" else "receives a corner-centred spectrum"
+        check.decide(ok, "C16-R4", f"fourier_projection: `{unparse(node)[:60]}` {what}", detail, mod.line(node), definite=True,
+                     fail_detail=f"{detail}: amplitudes are paired with the wrong Fourier pixels (for odd ROI sizes also after an attempted re-centring with the same shift "
+                                 f"function) — |result| ≠ measured and the projection is not idempotent")
+    check.floor("fourier_projection: framed pairings / inverse transforms", n_pair, 3)
+    for key, (rets, evs) in sorted(summaries.items()):
+        for node, kind, ok, detail in evs:
+            check.decide(ok, "C16-R4", f"estimate_amplitudes[corner_centered={key}, the value fourier_projection passes]: `{unparse(node)[:50]}` is applied to a value in the frame it expects",
+                         detail, repo.module(PB).line(node), definite=True, fail_detail=detail)
+        check.decide(len(rets) == 1 and rets[0] is not None and not str(rets[0]).startswith("Broken"), "C16-R4",
+                     f"estimate_amplitudes[corner_centered={key}] returns the far-field amplitudes in one definite frame", str(rets), repo.module(PB).line(est), definite=True,
+                     fail_detail=f"returns {rets}")
+    if not summaries:
+        raise AnalysisError("fourier_projection: estimate_amplitudes call not summarised")
     # the detector model centres its prediction with the SAME operator as estimate_amplitudes (fftshift: DC at n//2), the operator whose
     # inverse (ifftshift) fourier_projection applies to the measured amplitudes; on odd axes fftshift ≠ ifftshift
     DETM = "quantem.diffractive_imaging.detector_models"
